@@ -73,6 +73,12 @@ class TorchMarker:
     def __init__(self, name):
         self.name = name
 
+    def __eq__(self, other):
+        return isinstance(other, TorchMarker) and other.name == self.name
+
+    def __hash__(self):
+        return hash(("TorchMarker", self.name))
+
     def __repr__(self):
         return f"<{self.name}>"
 
